@@ -274,6 +274,16 @@ def run_case(ck, desc):
     # lookups anywhere are finite and inside the table's positive range
     q = np.array(desc["queries"] + [1e300, -1e300, 1.0, -1.0, 0.0, m_i, float(ms[0]), float(ms[-1]), float(ms[0]) * (1 - 1e-9), float(ms[-1]) * (1 + 1e-9)])
     v = np.asarray(obj.alpha(q), dtype=float)
+    # ... also for a caller who traps invalid / divide-by-zero FP exceptions: a NaN or infinity
+    # manufactured on the way and masked afterwards would raise there instead of returning a number
+    try:
+        with np.errstate(invalid="raise", divide="raise"):
+            v_strict = np.asarray(obj.alpha(q), dtype=float)
+        if not np.array_equal(v_strict, v, equal_nan=True):
+            ck.violation("lookup-finite-in-range", {"under": "np.errstate(invalid='raise', divide='raise')", "differs": True}, desc)
+        ck.count("lookups_under_trapping_fp_state", len(q))
+    except FloatingPointError as e:
+        ck.violation("lookup-finite-in-range", {"under": "np.errstate(invalid='raise', divide='raise')", "raised": repr(e)}, desc)
     lo, hi = float(want_alpha.min()), float(want_alpha.max())
     bad = ~np.isfinite(v) | (v < lo * (1 - 1e-12)) | (v > hi * (1 + 1e-12)) | (v <= 0)
     ck.count("lookups_checked", len(q))
